@@ -369,10 +369,19 @@ def run(ctx):
                 facts += _conjuncts(i.test, br == "body")
             has_len = has_kind = False
             unknown = []
+            bad_len = []
             for c, truth in facts:
                 t = txt(c)
                 if isinstance(c, ast.Compare) and t in (f"len({es}) == 2", f"2 == len({es})") and truth:
                     has_len = True
+                elif isinstance(c, ast.Compare) and len(c.ops) == 1 and f"len({es})" in (txt(c.left), txt(c.comparators[0])) \
+                        and astx.const_value(c.comparators[0] if txt(c.left) == f"len({es})" else c.left) is not None:
+                    # a length test that does not say "exactly two": a bare edge (u, v) has length 2
+                    k_ = astx.const_value(c.comparators[0] if txt(c.left) == f"len({es})" else c.left)
+                    op_ = type(c.ops[0]).__name__
+                    says_two = (op_ == "Eq" and k_ == 2 and truth) or (op_ == "NotEq" and k_ == 2 and not truth)
+                    if not says_two:
+                        bad_len.append(t if truth else f"not ({t})")
                 elif isinstance(c, ast.Call) and txt(c.func) == "isinstance" and len(c.args) == 2 and txt(c.args[0]) in (f"{es}[0]", f"{es}[1]", f"{es}[-1]"):
                     kinds = txt(c.args[1])
                     is_container = any(k in kinds for k in ("tuple", "list"))
@@ -385,7 +394,10 @@ def run(ctx):
                     unknown.append(t)
                 else:
                     unknown.append(t)
-            if has_kind:
+            if bad_len:
+                o.violated(fn, ifs[0], f"the re-pack branch requires `{bad_len[0]}`, which a bare edge (a 2-tuple) does not satisfy: a builder returning one bare edge is stored as two "
+                                       "integers in the edge column while the other columns get one entry")
+            elif has_kind:
                 o.holds(fn, ifs[0], f"re-pack guarded by an element-kind test: `{txt(ifs[0].test)}`")
             elif unknown:
                 o.undecided(f"re-pack guard contains tests the rule does not recognise: {unknown}", fn, ifs[0])
